@@ -52,11 +52,16 @@ pub struct Case {
     /// when present the run is a CDN run instead (CdnClient::download cache-then-fetch-then-store)
     #[serde(default)]
     pub cdn: Option<super::cdn::CdnCase>,
+    /// size class of the served documents: 0 = up to 4 rows (under 1 KiB), 1 = 150-400 rows (10-40 KiB: several
+    /// read-buffer fills), 2 = one STRING value of 9000 bytes (a single line longer than the client's read buffer),
+    /// 3 = a header line of more than 512 bytes (longer than the format-sniffing window)
+    #[serde(default)]
+    pub big_doc: u8,
 }
 
 // every 5xx is a transient server failure and every 4xx other than 429 a definitive refusal, not only the common codes
 const HTTP_BEHAVIOURS: [&str; 24] = ["ok", "500", "502", "503", "504", "501", "507", "521", "599", "429", "429ra", "400", "403", "404", "401", "410", "418", "malformed200", "empty200", "refused", "reset", "stall", "body_reset", "body_stall"];
-const TCP_BEHAVIOURS: [&str; 11] = ["mime_ok", "mime_ok_data", "v2_ok", "v2_blank", "malformed", "refused", "close_before", "close_mid", "reset_mid", "stall", "mime_bad_checksum"];
+const TCP_BEHAVIOURS: [&str; 13] = ["mime_ok", "mime_ok_data", "v2_ok", "v2_blank", "malformed", "refused", "close_before", "close_mid", "reset_mid", "stall", "mime_bad_checksum", "mime_ok_sig", "mime_ok_endpoint"];
 const SEGS: [&str; 5] = ["whole", "bytes1", "random", "blank", "tokens"];
 
 fn seg_of(s: &str) -> SegPolicy {
@@ -88,17 +93,32 @@ fn tcp_only(endpoint: &str) -> bool {
 }
 
 /// A generated BPSV document (text form, LF line endings).
-fn gen_doc(seed: u64, variant: u64) -> String {
+fn gen_doc(seed: u64, variant: u64, big: u8) -> String {
     let mut r = Rng::new(seed ^ variant.wrapping_mul(0x9E37));
     let mut s = String::from("Region!STRING:0|BuildConfig!HEX:16|BuildId!DEC:4|VersionsName!STRING:0\n");
     // header-only documents (zero data rows) are ordinary successful answers (bgdl of most products,
     // versions of unpublished ones) and must be cached like any other
-    let rows = if r.chance(1, 5) { 0 } else { r.range(1, 5) };
+    if big == 3 {
+        // forty more columns with long names: the header line alone exceeds 512 bytes
+        s = s.trim_end().to_string();
+        for c in 0..40 {
+            s.push_str(&format!("|ExtraColumnWithALongName{c:02}!STRING:0"));
+        }
+        s.push('\n');
+    }
+    let rows = if big == 1 { r.range(150, 400) } else if big == 2 { r.range(1, 5) } else if r.chance(1, 5) { 0 } else { r.range(1, 5) };
     for i in 0..rows {
         let region = ["us", "eu", "cn", "kr", "tw", "sg", "xx"][(i as usize + r.usize_below(3)) % 7];
         let mut h = [0u8; 16];
         r.fill(&mut h);
-        s.push_str(&format!("{region}|{}|{}|{}.{}.{}.{}\n", hex::encode(h), r.below(100_000), r.below(12), r.below(20), r.below(9), 40_000 + r.below(20_000) + variant));
+        let name = if big == 2 && i == 0 { format!("{}-{variant}", "long-version-name-".repeat(500)) } else { format!("{}.{}.{}.{}", r.below(12), r.below(20), r.below(9), 40_000 + r.below(20_000) + variant) };
+        s.push_str(&format!("{region}|{}|{}|{name}", hex::encode(h), r.below(100_000)));
+        if big == 3 {
+            for c in 0..40 {
+                s.push_str(&format!("|x{c}"));
+            }
+        }
+        s.push('\n');
     }
     s.push_str(&format!("## seqn = {}\n", 1000 + r.below(100_000)));
     s
@@ -119,6 +139,35 @@ fn mime_wrap(bpsv: &str, disposition: &str) -> Vec<u8> {
         &format!("Content-Disposition: {disposition}\r\n"),
         "\r\n",
         bpsv,
+        "\r\n",
+        "--RibbitBoundary--\r\n",
+    ];
+    let body = parts.join("");
+    let mut h = Sha256::new();
+    h.update(body.as_bytes());
+    format!("{body}Checksum: {:x}\r\n", h.finalize()).into_bytes()
+}
+
+/// The shape the official service sends: the data part (disposition = `disposition`) followed by a detached
+/// signature part (base64), both inside one multipart message, checksum over everything before its line.
+fn mime_wrap_sig(bpsv: &str, disposition: &str) -> Vec<u8> {
+    let sig = "MIIBygYJKoZIhvcNAQcCoIIBuzCCAbcCAQExDzANBglghkgBZQMEAgEFADALBgkq\r\nhkiG9w0BBwExggGSMIIBjgIBATBpMFQxCzAJBgNVBAYTAlVTMRswGQYDVQQKExJC\r\n";
+    let parts = [
+        "MIME-Version: 1.0\r\n",
+        "Content-Type: multipart/alternative; boundary=\"RibbitBoundary\"\r\n",
+        "\r\n",
+        "--RibbitBoundary\r\n",
+        "Content-Type: text/plain\r\n",
+        &format!("Content-Disposition: {disposition}\r\n"),
+        "\r\n",
+        bpsv,
+        "\r\n",
+        "--RibbitBoundary\r\n",
+        "Content-Type: application/octet-stream\r\n",
+        "Content-Disposition: signature\r\n",
+        "Content-Transfer-Encoding: base64\r\n",
+        "\r\n",
+        sig,
         "\r\n",
         "--RibbitBoundary--\r\n",
     ];
@@ -167,7 +216,7 @@ impl Scenario for Failover {
         "exploration"
     }
     fn rule(&self) -> &'static str {
-        "Per run: a behaviour for each of the three endpoints (TACT HTTPS, TACT HTTP, Ribbit TCP) out of {valid BPSV, valid V1 MIME (two disposition styles), valid V2 text, V2 text with a blank line, 500/502/503/504, 429 with/without Retry-After, 400/403/404, 200 with malformed/empty body, refused, reset, closed before/mid response, stall}, an endpoint class (versions/cdns/bgdl/TCP-only summary+certs/other), memory or disk protocol cache, a TCP segmentation policy, and a script of 1-6 steps Query | Advance(before/after the class's TTL) | NewClient(same cache dir) | SwapBehaviours | (one disk-cache run in six) PoisonCache = every file under the cache directory left empty or overwritten with an HTML page, after which nothing usable is cached and a query must walk the chain again, on the real RibbitTactClient over the simulated network under the virtual clock. Oracle: executable decision table (request log = prefix of [https,http,tcp] stopping at the first well-formed answer or definitive refusal; Ok iff that endpoint answered, document equal to what it served; cached answers produce zero network events until the TTL, at least one after; failures are never cached), and the same script repeated under other segmentations must give identical outcomes. One run in eight is a CDN run instead (scen/cdn.rs): the real CdnClient (download / download_archive_index) + ProtocolCache (memory or disk) over the simulated HTTP transport; a script of 1-7 steps Download(key, content type, per-request behaviour queue) | Index | Advance(around the configured TTLs) | NewClient(same directory); the host answers the successive requests of a download from the queue {ok, 5xx x8, 429 with no / 0 / 1 / 7 / unparsable Retry-After, 400/403/404/410, refused, reset, client time-out, body reset, body stall}. C13's oracles there: a download within the smallest configured TTL of a successful one sends no request and returns the same bytes (also by a new client on the same directory), after the largest TTL it sends one, a failed download is never served from the cache, every request names the caller's object, bytes equal what was served, a broken body is never Ok. Non-trivial = >= 2 queries or >= 1 fail-over; faults counted when they fire; distinct = hash of (case, request log, outcomes)."
+        "Per run: a behaviour for each of the three endpoints (TACT HTTPS, TACT HTTP, Ribbit TCP) out of {valid BPSV, valid V1 MIME (two disposition styles; with and without the detached signature part the official service appends, disposition 'version' or the endpoint class), valid V2 text, V2 text with a blank line, 500/502/503/504, 429 with/without Retry-After, 400/403/404, 200 with malformed/empty body, refused, reset, closed before/mid response, stall}, an endpoint class (versions/cdns/bgdl/TCP-only summary+certs/other), memory or disk protocol cache, a TCP segmentation policy, a document size class (up to 4 rows; one run in ten 150-400 rows = 10-40 KiB, or one 9000-byte value, or a header line over 512 bytes), and a script of 1-6 steps Query | Advance(before/after the class's TTL) | NewClient(same cache dir) | SwapBehaviours | (one disk-cache run in six) PoisonCache = every file under the cache directory left empty or overwritten with an HTML page, after which nothing usable is cached and a query must walk the chain again, on the real RibbitTactClient over the simulated network under the virtual clock. Oracle: executable decision table (request log = prefix of [https,http,tcp] stopping at the first well-formed answer or definitive refusal; Ok iff that endpoint answered, document equal to what it served; cached answers produce zero network events until the TTL, at least one after; failures are never cached), and the same script repeated under other segmentations must give identical outcomes. One run in eight is a CDN run instead (scen/cdn.rs): the real CdnClient (download / download_archive_index) + ProtocolCache (memory or disk) over the simulated HTTP transport; a script of 1-7 steps Download(key, content type, per-request behaviour queue) | Index | Advance(around the configured TTLs) | NewClient(same directory); the host answers the successive requests of a download from the queue {ok, 5xx x8, 429 with no / 0 / 1 / 7 / unparsable (word, HTTP date, 2^64, negative, fractional) Retry-After, 400/403/404/410, refused, reset, client time-out, body reset, body stall}. C13's oracles there: a download within the smallest configured TTL of a successful one sends no request and returns the same bytes (also by a new client on the same directory), after the largest TTL it sends one, a failed download is never served from the cache, every request names the caller's object, bytes equal what was served, a broken body is never Ok. Non-trivial = >= 2 queries or >= 1 fail-over; faults counted when they fire; distinct = hash of (case, request log, outcomes)."
     }
     fn assumptions(&self) -> Vec<&'static str> {
         vec![
@@ -245,9 +294,17 @@ impl Scenario for Failover {
             no_http: rng.chance(1, 10),
             // drawn last: one run in eight exercises the CDN client's cache-then-fetch-then-store instead
             cdn: if rng.chance(1, 8) { Some(super::cdn::generate(rng)) } else { None },
+            big_doc: 0,
         };
         // drawn after everything else: one disk-cache run in six has its cache files emptied / overwritten once
         let mut case = case;
+        // ... and one run in ten serves large documents (never cut into single bytes: 40 000 segments per answer)
+        if rng.chance(1, 10) {
+            case.big_doc = *rng.pick(&[1u8, 1, 2, 3]);
+            if case.seg == "bytes1" {
+                case.seg = "random".into();
+            }
+        }
         if case.cache == "disk" && case.cdn.is_none() && rng.chance(1, 6) {
             let at = rng.range(1, case.script.len() as u64) as usize;
             case.script.insert(at.min(case.script.len()), Step::PoisonCache { how: rng.below(2) as u8 });
@@ -317,6 +374,9 @@ fn tcp_bytes(b: &str, doc: &str) -> Vec<u8> {
     match b {
         "mime_ok" => mime_wrap(doc, "version"),
         "mime_ok_data" => mime_wrap(doc, "data"),
+        "mime_ok_sig" => mime_wrap_sig(doc, "version"),
+        // (the disposition names the endpoint class, as the official service does for cdns / bgdl / summary)
+        "mime_ok_endpoint" => mime_wrap_sig(doc, "cdns"),
         "v2_ok" => doc.as_bytes().to_vec(),
         "v2_blank" => {
             // a blank line after the header row
@@ -447,7 +507,7 @@ fn install(net: &Network, b: &Arc<std::sync::Mutex<Behaviours>>, docs: [String; 
 async fn run(case: &Case, ctx: &mut Ctx) -> Option<Violation> {
     ctx.obs(serde_json::to_string(case).unwrap_or_default().as_bytes());
     // three different documents so that the serving endpoint is identifiable
-    let docs = [gen_doc(case.doc_seed, 1), gen_doc(case.doc_seed, 2), gen_doc(case.doc_seed, 3)];
+    let docs = [gen_doc(case.doc_seed, 1, case.big_doc), gen_doc(case.doc_seed, 2, case.big_doc), gen_doc(case.doc_seed, 3, case.big_doc)];
     // keep the libc clock in step with tokio's virtual clock
     let t_start = tokio::time::Instant::now();
     let ticker = tokio::spawn(async move {
@@ -463,7 +523,7 @@ async fn run(case: &Case, ctx: &mut Ctx) -> Option<Violation> {
             let mut viol = None;
             if reached_tcp {
                 // metamorphic: other segmentations of the same bytes
-                let mut alts: Vec<&str> = SEGS.iter().copied().filter(|s| *s != case.seg).collect();
+                let mut alts: Vec<&str> = SEGS.iter().copied().filter(|s| *s != case.seg && !(case.big_doc != 0 && *s == "bytes1")).collect();
                 let rot = (case.net_seed % alts.len() as u64) as usize;
                 alts.rotate_left(rot);
                 for (j, seg) in alts.iter().take(3).enumerate() {
@@ -746,7 +806,7 @@ async fn run_script(case: &Case, seg: &str, docs: &[String; 3], ctx: &mut Ctx, v
                             _ => {
                                 let bytes = tcp_bytes(&bt, &docs[2]);
                                 match bt.as_str() {
-                                    "mime_ok" | "mime_ok_data" => {
+                                    "mime_ok" | "mime_ok_data" | "mime_ok_sig" | "mime_ok_endpoint" => {
                                         let d = cascette_protocol::mime_parser::parse_v1_mime_to_bpsv(&bytes).ok();
                                         verdict = Some(d.map(|d| view(&d)).ok_or(()));
                                         answered_by = Some(2);
@@ -767,6 +827,10 @@ async fn run_script(case: &Case, seg: &str, docs: &[String; 3], ctx: &mut Ctx, v
                     }
                     (expected_contacts, verdict.unwrap_or(Err(())), tcp_partial_possible, answered_by)
                 };
+                if bt == "mime_ok_sig" || bt == "mime_ok_endpoint" {
+                    let ok = cascette_protocol::mime_parser::parse_v1_mime_to_bpsv(&tcp_bytes(&bt, &docs[2])).is_ok();
+                    ctx.count(if ok { "tcp_mime_with_signature_part_is_an_answer" } else { "tcp_mime_with_signature_part_is_refused_by_the_parser" });
+                }
                 let strict = decide(false);
                 let lenient = decide(true);
                 let (expected_contacts, verdict, tcp_partial_possible, answered_by) = if contacted == strict.0 { strict } else if contacted == lenient.0 { lenient } else { strict };
